@@ -101,9 +101,16 @@ func (t *treePipeline) mkdir(r io.Reader, cfg *config) error {
 	ctx, cancel := context.WithCancel(cfg.ctx)
 	defer cancel()
 
+	t.grower.enableValidation()
+	// when detect invalid node name, return error. process end.
 	splitStream, errcsl := split(ctx, r)
 	rootStream, errcr := newRootGeneratorPipeline().generate(ctx, splitStream)
 	growStream, errcg := t.grower.grow(ctx, rootStream)
+	if cfg.dryrun {
+		// when detected no invalid node name, output tree.
+		errcs := t.spreader.spread(ctx, color.Output, growStream)
+		return t.handlePipelineErr(ctx, errcsl, errcr, errcg, errcs)
+	}
 	errcm := t.mkdirer.mkdir(ctx, growStream)
 	return t.handlePipelineErr(ctx, errcsl, errcr, errcg, errcm)
 }
